@@ -25,7 +25,7 @@ import os
 import tokenize
 from typing import Dict, Iterator, List, Optional, Sequence, Tuple
 
-from rmc import evidence, explore, pipeline
+from rmc import device, evidence, explore, pipeline
 from rmc.runner import Report
 from . import common
 
@@ -370,12 +370,56 @@ def _layout_worker(args) -> dict:
     return stats
 
 
+def handler_twins(report: Report) -> None:
+    """An exception handler never runs in the mock, so what a statement becomes INSIDE a handler is compared with what the
+    same statement becomes inside an `if` that is never taken: the two sketches must consist of the same lines (file-scope
+    declarations included) apart from the lines of the two wrappers."""
+    from collections import Counter
+
+    def body_lines(text: str, drop) -> Counter:
+        lines = [ln.strip() for ln in text.splitlines() if ln.strip()]
+        return Counter(ln for ln in lines if not any(d(ln) for d in drop))
+
+    for placement in ("setup", "loop", "helper"):
+        for pi, probe in enumerate(PROBES):
+            pre = ["r = 1", "zz = 0"]
+            t_block = ["try:", "    zz = a"] + ["except:"] + common.indent(list(probe))
+            i_block = ["zz = a", "if a > 99:"] + common.indent(list(probe))
+            srcs = []
+            for block in (t_block, i_block):
+                if placement == "setup":
+                    srcs.append(common.script(pre + block + OBSERVE, None, prologue=PRO))
+                elif placement == "loop":
+                    srcs.append(common.script(pre, block + OBSERVE, prologue=PRO))
+                else:
+                    srcs.append(common.script(pre + ["def helper():", "    global q", "    global r", "    global zz"] + common.indent(block) + ["helper()"] + OBSERVE, None, prologue=PRO))
+            results = [device.transpile(x) for x in srcs]
+            report.evaluations += 1
+            if any(r.status != "ok" for r in results):
+                report.outcomes["twin_rejected" if all(r.status != "ok" for r in results) else "twin_one_rejected"] += 1
+                continue
+            # (closing braces are not compared: the two wrappers own a different number of them)
+            t_lines = body_lines(results[0].cpp, [lambda ln: ln in ("try {", "} catch (...) {", "catch (...) {", "}")])
+            i_lines = body_lines(results[1].cpp, [lambda ln: ln.startswith("if ((a > 99))") or ln.startswith("if (a > 99)") or ln == "}"])
+            if t_lines == i_lines:
+                report.outcomes["twin_same"] += 1
+                continue
+            only_t = sorted((t_lines - i_lines).elements())
+            only_i = sorted((i_lines - t_lines).elements())
+            report.outcomes["violation"] += 1
+            key = explore.history_key(ID, "handler-twin", [("probe", (placement, "\n".join(probe)), {})])
+            report.violation(key, f"handler twin [{placement}] probe {probe}: inside 'except:' the statement becomes {only_t[:4]}, inside a branch {only_i[:4]}",
+                             {"twin": True, "placement": placement, "probe": probe, "try_src": srcs[0], "if_src": srcs[1]})
+
+
 def main(tier: str, seed: int, only=None) -> int:
     report = Report(ID, LEVEL, tier, seed)
     os.environ["REDUINO_VERIF"] = "1"
     if not only or "A" in only:
         # a sketch that does not compile is C06's business; here a statement must not vanish silently
         common.drive(report, MOD, accounting_cases() + whole_script_cases(), opts={"host_timeout": 5.0}, batch_size=40, bad=("violation", "transpile_crash", "transpile_timeout"))
+    if not only or "X" in only:
+        handler_twins(report)
     layout_stats = {}
     if not only or "L" in only:
         jobs = [(name, src, tier, tier == "thorough") for name, src in CORPUS.items()]
@@ -406,6 +450,15 @@ def replay(path: str) -> int:
         base, var = _transpile(data["base"]), _transpile(data["variant"])
         print("replay: base", base[0], "variant", var[0])
         if var[0] == "crash" or base != var:
+            print(f"VIOLATION property={ID} replay={path}")
+            return 1
+        return 0
+    if data.get("twin"):
+        report = Report(ID, LEVEL, "quick", 0)
+        handler_twins(report)
+        hit = [v for v in report.violations if v["key"] == data.get("key")]
+        print("replay:", "differs" if hit else "same lines")
+        if hit:
             print(f"VIOLATION property={ID} replay={path}")
             return 1
         return 0
